@@ -263,12 +263,62 @@ EDGE_DOCS = [d + DEFS3 for d in (
     ["x[^a] y[^b]\n\n[^a]: \n[^b]: note B\n", "x[^a]\n\n[^a]:\t\n", "a[^1]\n\n[^1]: one\n   two\n\n   three\n\n    four\n", "[^1]\n\n[^1]: see [^2] inside\n\n[^2]: other\n"]
 
 
+ADJ_BEFORE = ["", " ", "word", "[manual]", "[nolabel]", ")", "*", "**", "_", ".", ":", "\\\\", "(", "`c`", "[t](/u)", "<b>", "]", "'", "\""]
+ADJ_AFTER = ["", " ", "word", "(disputed)", "(/url)", "(/url 'title')", "[manual]", "[nolabel]", "[x]", "[]", ":", ": text", "{.cls}", "*", "!", ".", "](", ")", "<b>", "`c`", "[^zz]", "\\"]
+
+
+def adjacency(ctx, n):
+    """Which `[^key]` occurrences are references must not depend on the characters right next to them: a paragraph is assembled from words
+    and references to DEFINED notes, each reference glued directly to a random left and right neighbour (a defined / undefined shortcut link,
+    a parenthesis that could be a link destination, emphasis marks, punctuation, an escaped backslash, another bracket pair ...).  The expected
+    sequence of referenced keys is known by construction; it is compared with the real reference tokens, the emitted notes and their numbers."""
+    import mistune
+    from mistune.util import unikey
+    mds = [configs.make(configs.C("adj", plugins=["footnotes"], renderer="ast")),
+           configs.make(configs.C("adj-all", plugins=configs.PLUGINS, renderer="ast"))]
+    htmls = [configs.make(configs.C("adjh", plugins=["footnotes"])), configs.make(configs.C("adjh-all", plugins=configs.PLUGINS))]
+    keys = ["a", "b", "note", "1", "k2"]
+    cnt = 0
+    for i in range(n):
+        parts, expected = [], []
+        for _ in range(ctx.rng.randint(1, 4)):
+            k = ctx.rng.choice(keys)
+            b, a = ctx.rng.choice(ADJ_BEFORE), ctx.rng.choice(ADJ_AFTER)
+            if ctx.rng.random() < 0.5:
+                b = ctx.rng.choice(["", " ", "word", "[manual]"])
+            if ctx.rng.random() < 0.5:
+                a = ctx.rng.choice(["", " ", "word", "(disputed)"])
+            parts.append(ctx.rng.choice(["lead ", "The claim"] + ([""] if parts else [])) + b + "[^%s]" % k + a)
+            expected.append(k)
+        sep = ctx.rng.choice([" and ", " x ", " , "])
+        para = sep.join(parts)
+        pre = ctx.rng.choice(["", "", "> ", "- ", "# "])
+        defs = "".join("[^%s]: note %s\n\n" % (k, k) for k in keys)
+        doc = pre + para + "\n\n[manual]: /manual\n\n" + defs
+        j = i % 2
+        try:
+            toks = mds[j](doc)
+            html = htmls[j](doc)
+        except Exception as e:
+            ctx.fail("exception", "footnotes conversion raised %r" % e, {"doc": doc}); continue
+        cnt += 1
+        got = [t["raw"] for t in walk([x for x in toks if x["type"] != "footnotes"]) if t["type"] == "footnote_ref"]
+        rep = {"doc": doc, "variant": "adjacency", "expected_refs": expected, "got_refs": got}
+        if got != [unikey(k) for k in expected]:
+            ctx.fail("adjacent-reference-lost", "the paragraph %r holds references to the defined notes %r in running text, the parser produced references %r" % (para, expected, got), rep); continue
+        nrefs = len(re.findall(r'<sup class="footnote-ref"', html))
+        if nrefs != len(expected):
+            ctx.fail("adjacent-reference-lost", "the paragraph %r holds %d references to defined notes, the HTML has %d" % (para, len(expected), nrefs), rep); continue
+    return cnt
+
+
 def run(ctx):
     ctx.broken += common.proof_stage(ctx, THEOREMS)
     docs = EDGE_DOCS * 6 + [fn_doc(ctx.rng) for _ in range(1500 if ctx.quick() else 15000)]
     n1 = correspondence(ctx, docs)
     n2 = html_oracle(ctx, docs)
     n2 += block_order(ctx, 400 if ctx.quick() else 6000)
+    n2 += adjacency(ctx, 1500 if ctx.quick() else 20000)
     if ctx.broken and not ctx.failures:
         ctx.notes.append("search mode entered")
         n2 += html_oracle(ctx, [fn_doc(ctx.rng) for _ in range(20000)])
